@@ -2117,10 +2117,15 @@ impl HttpsProxy {
             crate::router::HstsOrigin::Explicit
         };
 
-        listener.set_tags(front.hostname.to_owned(), front.tags.to_owned());
+        let hostname = front.hostname.to_owned();
+        let tags = front.tags.to_owned();
+
         listener
             .add_https_front_with_hsts_origin(front, hsts_origin)
             .map_err(ProxyError::AddFrontend)?;
+        // only once the frontend is accepted: a rejected one (duplicate route,
+        // invalid rule) must not overwrite the tags of a configured hostname
+        listener.set_tags(hostname, tags);
         Ok(None)
     }
 
